@@ -744,9 +744,74 @@ fn check_case(case: &Case, st: &mut Stats) -> Verdict {
     }
 }
 
+/// The seeding builders the drivers are made of, called directly (users seed by hand as well):
+/// `derivative()`, `derivative1/2/3()`, `Derivative::derivative()`, `Derivative::derivative_generic`,
+/// `unwrap()` / `unwrap_generic` of absent parts. Deterministic, enumerated once per run.
+fn builder_checks(st: &mut Stats) -> Vec<(Case, String, String)> {
+    use nalgebra::{Const, Dyn};
+    let mut fails: Vec<(Case, String, String)> = vec![];
+    let dummy = || Case { driver: Driver::First, try_variant: false, fail: false, err: 0, dynamic: false, n: 1, n2: 0, m: 1, x: vec![1.0], raw: vec![RawOp { code: 0, a: 0, b: 0, c: 0, k: 0.0, n: 0 }], idx: (0, 0, 0), inner: vec![0.0], wide: 0, wu: 0.0 };
+    let mut expect = |name: &str, got: Vec<f64>, want: Vec<f64>| {
+        st.evaluations += 1;
+        if got.len() == want.len() && got.iter().zip(&want).all(|(a, b)| a.to_bits() == b.to_bits()) {
+            st.passes += 1;
+            st.count("seeding_builder_checks", 1);
+        } else {
+            fails.push((dummy(), format!("C05/builder/{name}"), format!("{name} gives {got:?}, expected {want:?}")));
+        }
+    };
+    for x in [1.5f64, -0.0, 0.0, -2.25e10] {
+        let d = Dual64::from_re(x).derivative();
+        expect("Dual::derivative", vec![d.re, d.eps], vec![x, 1.0]);
+        let d = Dual2_64::from_re(x).derivative();
+        expect("Dual2::derivative", vec![d.re, d.v1, d.v2], vec![x, 1.0, 0.0]);
+        let d = Dual3_64::from_re(x).derivative();
+        expect("Dual3::derivative", vec![d.re, d.v1, d.v2, d.v3], vec![x, 1.0, 0.0, 0.0]);
+        let d = HyperDual64::from_re(x).derivative1();
+        expect("HyperDual::derivative1", vec![d.re, d.eps1, d.eps2, d.eps1eps2], vec![x, 1.0, 0.0, 0.0]);
+        let d = HyperDual64::from_re(x).derivative2();
+        expect("HyperDual::derivative2", vec![d.re, d.eps1, d.eps2, d.eps1eps2], vec![x, 0.0, 1.0, 0.0]);
+        let d = HyperDual64::from_re(x).derivative1().derivative2();
+        expect("HyperDual::derivative1().derivative2()", vec![d.re, d.eps1, d.eps2, d.eps1eps2], vec![x, 1.0, 1.0, 0.0]);
+        let h = HyperHyperDual64::from_re(x);
+        let all = |d: HyperHyperDual64| vec![d.re, d.eps1, d.eps2, d.eps3, d.eps1eps2, d.eps1eps3, d.eps2eps3, d.eps1eps2eps3];
+        expect("HyperHyperDual::derivative1", all(h.derivative1()), vec![x, 1.0, 0.0, 0.0, 0.0, 0.0, 0.0, 0.0]);
+        expect("HyperHyperDual::derivative2", all(h.derivative2()), vec![x, 0.0, 1.0, 0.0, 0.0, 0.0, 0.0, 0.0]);
+        expect("HyperHyperDual::derivative3", all(h.derivative3()), vec![x, 0.0, 0.0, 1.0, 0.0, 0.0, 0.0, 0.0]);
+        expect("HyperHyperDual::derivative1().derivative2().derivative3()", all(h.derivative1().derivative2().derivative3()), vec![x, 1.0, 1.0, 1.0, 0.0, 0.0, 0.0, 0.0]);
+        // nested: the seed is the ONE of the inner type (a constant)
+        let d = Dual::<Dual64, f64>::from_re(Dual64::new(x, 0.75)).derivative();
+        expect("Dual<Dual64>::derivative", vec![d.re.re, d.re.eps, d.eps.re, d.eps.eps], vec![x, 0.75, 1.0, 0.0]);
+        let d = Dual2::<Dual64, f64>::from_re(Dual64::new(x, 0.75)).derivative();
+        expect("Dual2<Dual64>::derivative", vec![d.re.re, d.re.eps, d.v1.re, d.v1.eps, d.v2.re, d.v2.eps], vec![x, 0.75, 1.0, 0.0, 0.0, 0.0]);
+        let d = Dual32::from_re(x as f32).derivative();
+        expect("Dual32::derivative", vec![d.re as f64, d.eps as f64], vec![x as f32 as f64, 1.0]);
+    }
+    // the optional container
+    let one = Derivative::<f64, f64, U1, U1>::derivative();
+    expect("Derivative::derivative().unwrap()", vec![one.unwrap()], vec![1.0]);
+    expect("Derivative::none().unwrap()", vec![Derivative::<f64, f64, U1, U1>::none().unwrap()], vec![0.0]);
+    for n in 1..=6usize {
+        for i in 0..n {
+            let e = Derivative::<f64, f64, Dyn, U1>::derivative_generic(Dyn(n), U1, i).unwrap_generic(Dyn(n), U1);
+            expect("Derivative::derivative_generic (column)", e.iter().copied().collect(), (0..n).map(|k| if k == i { 1.0 } else { 0.0 }).collect());
+            let e = Derivative::<f64, f64, U1, Dyn>::derivative_generic(U1, Dyn(n), i).unwrap_generic(U1, Dyn(n));
+            expect("Derivative::derivative_generic (row)", e.iter().copied().collect(), (0..n).map(|k| if k == i { 1.0 } else { 0.0 }).collect());
+        }
+        let z = Derivative::<f64, f64, Dyn, Dyn>::none().unwrap_generic(Dyn(n), Dyn(n + 1));
+        expect("Derivative::none().unwrap_generic", vec![z.nrows() as f64, z.ncols() as f64, z.iter().map(|v| v.abs()).sum()], vec![n as f64, (n + 1) as f64, 0.0]);
+    }
+    let e = Derivative::<f64, f64, Const<3>, U1>::derivative_generic(Const::<3>, U1, 2).unwrap_generic(Const::<3>, U1);
+    expect("Derivative::derivative_generic (static)", e.iter().copied().collect(), vec![0.0, 0.0, 1.0]);
+    fails
+}
+
 impl Property for C05 {
     type Case = Case;
     const ID: &'static str = "C05";
+    fn exhaustive(_tier: Tier, st: &mut Stats) -> Vec<(Case, String, String)> {
+        builder_checks(st)
+    }
     fn strategy(tier: Tier) -> BoxedStrategy<Case> {
         let driver = prop_oneof![
             1 => Just(Driver::First),
@@ -789,7 +854,7 @@ impl Property for C05 {
         }
     }
     fn rule() -> String {
-        "generated: functions R^n -> R^m as one shared expression DAG (C03 opcodes) whose last m nodes are the outputs, n in 0..6, m in 1..6, static instantiations for n, m in {1,2,3,4,6} (all 25 (n,m) combinations for jacobian and partial_hessian) and dynamic storage for every size incl. n = 0; the point (one case in ten: a wide-magnitude point, every coordinate m_i*10^e with e uniform in +-300/(d+1), with a template function of quotients, products and one elementary function); all 20 drivers (10 + their try_ variants), third_partial_derivative_vec with generated index triples incl. repeated indices, first/second derivative and gradient also with dual numbers inside (T = Dual64). Oracle: the partial derivatives read off the reference algebra seeded with unit generators exactly as the documentation describes (gradient[i] = e_i coefficient, jacobian[(i,j)] = e_j coefficient of output i, hessian/partial_hessian[(i,j)] = a_i b_j coefficient, the 4/8 tuples), tolerance 32 u e; shapes; try_ variants return Err(e) with exactly the generated e when the closure fails and bit-identical values otherwise. Non-trivial: >= 2 variables and all compared reference values pairwise distinct (so a transposed / swapped / mis-seeded result cannot coincide), or a failing closure.".into()
+        "generated: functions R^n -> R^m as one shared expression DAG (C03 opcodes) whose last m nodes are the outputs, n in 0..6, m in 1..6, static instantiations for n, m in {1,2,3,4,6} (all 25 (n,m) combinations for jacobian and partial_hessian) and dynamic storage for every size incl. n = 0; the point (one case in ten: a wide-magnitude point, every coordinate m_i*10^e with e uniform in +-300/(d+1), with a template function of quotients, products and one elementary function); all 20 drivers (10 + their try_ variants), third_partial_derivative_vec with generated index triples incl. repeated indices, first/second derivative and gradient also with dual numbers inside (T = Dual64). Oracle: the partial derivatives read off the reference algebra seeded with unit generators exactly as the documentation describes (gradient[i] = e_i coefficient, jacobian[(i,j)] = e_j coefficient of output i, hessian/partial_hessian[(i,j)] = a_i b_j coefficient, the 4/8 tuples), tolerance 32 u e; shapes; try_ variants return Err(e) with exactly the generated e when the closure fails and bit-identical values otherwise. The seeding builders (derivative(), derivative1/2/3(), Derivative::derivative / derivative_generic / unwrap / unwrap_generic) are enumerated directly once per run (counter seeding_builder_checks). Non-trivial: >= 2 variables and all compared reference values pairwise distinct (so a transposed / swapped / mis-seeded result cannot coincide), or a failing closure.".into()
     }
     fn assumptions() -> Vec<String> {
         vec!["static sizes limited to {1,2,3,4,6}; dynamic 0..6".into()]
